@@ -57,7 +57,7 @@ package merkle_tree
 
 // GP (E.1) N: a sequence of n >= 2 items is folded with exactly n-1 node hashes (one per inner node of the well-balanced
 // tree), whatever the items are — so no item can be left out of the root; 0 or 1 item costs no hash call
-//@ readonly nodePrefix
+//@ stable nodePrefix
 //@ func N
 //@   props C18
 //@   opt purecalls=1
@@ -78,3 +78,18 @@ package merkle_tree
 //@   ensures single: len(v) == 1 && v[0] != nil ==> dyncalls() == old(dyncalls()) + 1
 //@   ensures fold: len(v) >= 2 ==> dyncalls() == old(dyncalls()) + len(v) - 1
 //@   ensures empty: len(v) == 0 ==> dyncalls() == old(dyncalls())
+
+// GP (E.4) M: every item is hashed as a leaf (|v| calls) and the padded layer of d leaves — d the smallest power of two
+// >= max(1,|v|) — is folded with d-1 node hashes
+//@ func M
+//@   props C18
+//@   opt purecalls=1
+//@   opt countcalls=1
+//@   requires fn: hashFunc != nil && len(v) <= 1073741824 && len(nodePrefix) == 4
+//@   ensures calls: dyncalls() - old(dyncalls()) - len(v) + 1 >= 1 && dyncalls() - old(dyncalls()) - len(v) + 1 >= len(v) && (dyncalls() - old(dyncalls()) - len(v) + 1) & (dyncalls() - old(dyncalls()) - len(v)) == 0 && (dyncalls() - old(dyncalls()) - len(v) + 1 == 1 || (dyncalls() - old(dyncalls()) - len(v) + 1)/2 < len(v))
+//@   assigns everything
+//@   loop rangeindex#0
+//@     invariant range: rangeindex >= -1 && rangeindex < len(C_res) && len(seq) == len(C_res) && fresh(seq) && hashFunc != nil
+//@     invariant size: len(C_res) >= 1 && len(C_res) >= len(v) && len(C_res) & (len(C_res) - 1) == 0 && (len(C_res) == 1 || len(C_res)/2 < len(v)) && len(C_res) <= 1073741824
+//@     invariant elems: forall(k, 0, rangeindex+1, len(seq[k]) == 32)
+//@     invariant calls: dyncalls() == old(dyncalls()) + len(v)
